@@ -1125,13 +1125,20 @@ impl ProtocolState {
         self.high_priority_operation_queue.iter().any(|id| self.is_connect_packet(*id))
     }
 
+    // true until the CONNECT packet has been completely encoded and its write has completed
+    fn is_connect_unflushed(&self) -> bool {
+        self.is_connect_in_queue()
+            || self.current_operation.is_some_and(|id| self.is_connect_packet(id))
+            || self.pending_write_completion_operations.iter().any(|id| self.is_connect_packet(*id))
+    }
+
     fn handle_network_event_incoming_data(&mut self, context: &mut NetworkEventContext, data: &[u8]) -> GneissResult<()> {
         if self.state == ProtocolStateType::Disconnected || self.state == ProtocolStateType::Halted {
             error!("[{} ms] handle_network_event_incoming_data - called in invalid state", self.elapsed_time_ms);
             return Err(GneissError::new_internal_state_error("incoming network data while in an invalid state"));
         }
 
-        if self.state == ProtocolStateType::PendingConnack && self.is_connect_in_queue() {
+        if self.state == ProtocolStateType::PendingConnack && self.is_connect_unflushed() {
             error!("[{} ms] handle_network_event_incoming_data - data received before CONNECT sent", self.elapsed_time_ms);
             self.change_state(ProtocolStateType::Halted);
             return Err(GneissError::new_protocol_error("data received before CONNECT sent"));
